@@ -130,7 +130,10 @@ def c20Sig (st : SrState) (sec what : String) (r : Fields) (o : Option Fields) :
   let client := parts.headD ""
   let filter := (parts.drop 1).headD ""
   let weak := st.backend == "bolt" || st.backend == "redis"
-  if sec == "SESS" then
+  if sec == "SESS" && what == "new" then
+    -- a connected client missing from the live session table (take-over race in the live broker), present in the store
+    "F20k-live-session-missing"
+  else if sec == "SESS" then
     if what == "seiflag" then "F20b-seiflag"
     else if what == "rpif" then "F20b-rpif"
     else if weak then "F20i-stale-session-record"
@@ -146,6 +149,7 @@ def c20Sig (st : SrState) (sec what : String) (r : Fields) (o : Option Fields) :
     if client == hexInline || parts.getLast? == some "inline" then "F20g-inline-subscription"
     else if what != "lost" && qAfter ≥ 128 then "F20f-refused-subscription"
     else if what == "q" then "F20h-granted-qos"
+    else if sec == "CSUB" && what == "new" then "F20k-live-session-missing"
     else if collides st.touched client filter then "F20a-key-collision"
     else s!"F20-{sec}.{what}"
 
